@@ -40,7 +40,7 @@ pub fn plan(quick: bool) -> Vec<Part> {
 }
 
 pub fn finalize(_tier: &str, rep: &mut Report) {
-    rep.rule = "every read set of the listed families x {stranded, unstranded} x start graphs {one k-mer per node, fully compressed, EVERY 2-partition of the k-mers of small tables compressed separately and combined in both orders (a few fixed partitions for larger tables)} x reductions {sum, colour/payload-equality}; for each: compress_graph(None) == reference unitigs/payload/adjacency == direct route, second application changes nothing but order/orientation; for start graphs with few nodes EVERY censor subset: surviving k-mers, unitigs of the surviving sub-table, payload fold, no extension to a removed k-mer".into();
+    rep.rule = "every read set of the listed families x {stranded, unstranded} x start graphs {one k-mer per node, fully compressed, EVERY 2-partition of the k-mers of small tables compressed separately and combined in both orders (a few fixed partitions for larger tables)} x reductions {sum, colour/payload-equality, a non-reflexive predicate}; unsorted / repeated censor lists; is_compressed() must agree that the result is compressed; for each: compress_graph(None) == reference unitigs/payload/adjacency == direct route, second application changes nothing but order/orientation; for start graphs with few nodes EVERY censor subset: surviving k-mers, unitigs of the surviving sub-table, payload fold, no extension to a removed k-mer".into();
     rep.assumptions.push("K >= 8 k-mer types are covered by the structure catalogue only (content not exhaustive)".into());
     rep.assumptions.push("built without debug assertions (the crate's own debug_assert!(is_compressed) is not relied upon)".into());
     for f in ["partial_start_graphs_explored", "censor_subsets_explored", "censoring_merges_formerly_branching_paths", "palindromic_kmer", "self_link_or_hairpin"] {
@@ -127,6 +127,10 @@ pub fn run<K: Kmer + Send + Sync>(c: &GCase) -> Outcome {
         let nn = g0.len();
         let g1 = compress_graph(c.stranded, &spec, g0, None);
         let gv1 = view(&g1);
+        o.transitions += 1;
+        if let Some(pair) = g1.is_compressed(&spec) {
+            o.fail("is-compressed-false-alarm", format!("[{}] is_compressed() reports nodes {:?} as mergeable on the re-compressed graph (the crate's own debug assertion would fire)", name, pair));
+        }
         full_check(&mut o, &format!("{}->recompress", name), &gv1, t, &always);
         sum_payload(&mut o, &format!("{}->recompress", name), &gv1, t);
         o.transitions += 1;
@@ -173,6 +177,40 @@ pub fn run<K: Kmer + Send + Sync>(c: &GCase) -> Outcome {
         }
     }
 
+    // a NON-reflexive predicate (equal payloads never join): compress_graph must consult the caller's predicate for every join
+    {
+        struct NeverEqual;
+        impl CompressionSpec<u16> for NeverEqual {
+            fn reduce(&self, a: u16, _b: &u16) -> u16 {
+                a
+            }
+            fn join_test(&self, a: &u16, b: &u16) -> bool {
+                a != b
+            }
+        }
+        let differ = |a: &S, b: &S| t.e[a].count() != t.e[b].count();
+        let g1 = compress_graph(c.stranded, &NeverEqual, singletons(c.stranded, &pruned).finish_serial(), None);
+        note(&mut o, "singletons->recompress/non-reflexive-predicate", check_maximal(&view(&g1), t, &differ));
+        note(&mut o, "singletons->recompress/non-reflexive-predicate", check_lossless(&view(&g1), t, true));
+    }
+    // the censor list is a set: order and repetitions must not matter
+    {
+        let g0 = singletons(c.stranded, &pruned).finish_serial();
+        let nn = g0.len();
+        if nn >= 3 {
+            let cens_sets: Vec<Vec<usize>> = vec![vec![nn - 1, 0], vec![nn / 2, nn - 1, nn / 2, 0], vec![1, 0, 1]];
+            for cs in cens_sets {
+                let gv0 = view(&g0);
+                let keep: BTreeSet<S> = (0..nn).filter(|i| !cs.contains(i)).flat_map(|i| gv0.kmers(i)).collect();
+                let mut t2 = t.clone();
+                t2.retain(&|x, _| keep.contains(x));
+                t2.prune(&|_| false);
+                let gc = compress_graph(c.stranded, &spec, singletons(c.stranded, &pruned).finish_serial(), Some(cs.clone()));
+                let st = format!("singletons->censor(list {:?})", cs);
+                full_check(&mut o, &st, &view(&gc), &t2, &always);
+            }
+        }
+    }
     // colour reduction (payload-equality join predicate)
     {
         let (ct, _) = colour_table::<K>(&reads, c.stranded, c.thr);
